@@ -96,7 +96,7 @@ class Gen:
         if k < 0.8 or not self.allow_seq:
             return self.map(depth)
         items = [self.node(depth - 1, in_seq=True) for _ in range(r.randint(0, 3))]
-        tg = self.tag(('force', 'weak', 'del', 'merge', 'unsafe', 'new'))
+        tg = self.tag(('del', 'merge', 'unsafe', 'new') if self.no_prio_in_seq else ('force', 'weak', 'del', 'merge', 'unsafe', 'new'))
         if tg == 'del' and not items and not self.allow_remove_idiom:
             tg = None       # `!del []` / `!del {}` is the explicit remove-this-key idiom (intentionally not idempotent)
         return sq(items, tg)
